@@ -37,15 +37,20 @@ func init() { commands["faults5"] = faults5Run }
 
 // fqBackoffGaps judges the call log of one plan of faults.go (calls carry the time of ENTRY; a failed call returns at once).
 func fqBackoffGaps(calls []fqCall, retry time.Duration, plan fqPlan) (viol []string, failures int) {
+	// After a loop-side call has failed with the injected error — Pop() / Push(), and since the repair of finding F4 also Size() / Head() —
+	// the loop's next queue call of ANY kind (the Size() at the top of an iteration included: the back-off deadline is tested before it
+	// is asked) comes no sooner than RetryInterval - 1 ms, whatever interrupts arrive in between.
 	first, n := "", 0
 	for i, c := range calls {
-		if !(c.loop && c.fault == "fail" && (c.op == "pop" || c.op == "push")) {
+		if !(c.loop && c.fault == "fail" && (c.op == "pop" || c.op == "push" || c.op == "size" || c.op == "head")) {
 			continue
 		}
-		failures++
+		if c.op == "pop" || c.op == "push" {
+			failures++
+		}
 		for j := i + 1; j < len(calls); j++ {
 			d := calls[j]
-			if !d.loop || !(d.op == "pop" || d.op == "push" || d.op == "head") {
+			if !d.loop || !(d.op == "pop" || d.op == "push" || d.op == "head" || d.op == "size") {
 				continue
 			}
 			if gap := d.at.Sub(c.at); gap < retry-time.Millisecond {
